@@ -46,6 +46,9 @@ type opTable struct {
 	byKind map[string]int
 	labels []string         // distinct receiver classes, in first-seen order
 	byLab  map[string][]int // receiver indexes per class
+	cold   bool             // cold table: built without calling ANY library method
+	idRecv []int            // cold: receivers that have an EntityID (resolved inside the goroutine)
+	nmRecv []int            // cold: receivers that have a Name
 }
 
 var (
@@ -106,11 +109,64 @@ func (t *opTable) add(label string, x any) {
 	t.recvs = append(t.recvs, rc)
 	t.byKind[ty.String()]++
 	if e, ok := x.(entityLike); ok {
-		t.ids = append(t.ids, e.EntityID())
+		if t.cold {
+			t.idRecv = append(t.idRecv, len(t.recvs)-1)
+		} else {
+			t.ids = append(t.ids, e.EntityID())
+		}
 	}
 	if n, ok := x.(interface{ Name() string }); ok {
-		t.names = append(t.names, n.Name())
+		if t.cold {
+			t.nmRecv = append(t.nmRecv, len(t.recvs)-1)
+		} else {
+			t.names = append(t.names, n.Name())
+		}
 	}
+}
+
+// newOpTableCold builds the table from the harness's own lists only: no getter, no lookup, no
+// String of the library runs before the goroutines start (a first-use cache, per object or per
+// process, is still cold).  Entity ids and names used as arguments are fetched inside the
+// goroutine that uses them.
+func newOpTableCold(w *world) *opTable {
+	t := &opTable{w: w, byKind: map[string]int{}, byLab: map[string][]int{}, cold: true}
+	t.add("net", w.net)
+	for _, x := range w.buses {
+		t.add("bus", x)
+	}
+	for _, x := range w.builders {
+		t.add("builder", x)
+	}
+	for _, x := range w.nodes {
+		t.add("node", x)
+	}
+	for _, x := range w.ifaces {
+		t.add("iface", x)
+	}
+	for _, x := range w.msgs {
+		t.add("msg", x)
+	}
+	for _, x := range w.sigs {
+		t.add("sig", x)
+	}
+	for _, x := range w.detached {
+		t.add("detached", x)
+	}
+	for _, x := range w.types {
+		t.add("type", x)
+	}
+	for _, x := range w.units {
+		t.add("unit", x)
+	}
+	for _, x := range w.enums {
+		t.add("enum", x)
+	}
+	for _, x := range w.attrs {
+		t.add("attr", x)
+	}
+	t.ids = []acmelib.EntityID{"missing-entity-id"}
+	t.names = []string{"missing name", ""}
+	return t
 }
 
 func newOpTable(w *world) *opTable {
@@ -201,6 +257,7 @@ type roOp struct {
 	recv   int
 	method int
 	args   []reflect.Value
+	lazy   []int // cold tables: per argument, the receiver whose EntityID / Name is the argument (-1: args[i])
 	desc   string
 	class  string
 }
@@ -258,9 +315,23 @@ func (t *opTable) genOp(r *rng) roOp {
 	op := roOp{recv: ri, method: mi, class: m.Name}
 	var as []string
 	for a := 1; a < m.Type.NumIn(); a++ {
-		v := t.genArg(r, m.Type.In(a), rc)
+		pt := m.Type.In(a)
+		v := t.genArg(r, pt, rc)
+		lz := -1
+		if t.cold && pt == entityIDType && len(t.idRecv) > 0 && r.chance(70) {
+			lz = t.idRecv[r.intn(len(t.idRecv))]
+		} else if t.cold && pt.Kind() == reflect.String && pt != entityIDType && len(t.nmRecv) > 0 && r.chance(60) {
+			lz = t.nmRecv[r.intn(len(t.nmRecv))]
+		}
 		op.args = append(op.args, v)
-		as = append(as, fmt.Sprintf("%v", v.Interface()))
+		if t.cold {
+			op.lazy = append(op.lazy, lz)
+		}
+		if lz >= 0 {
+			as = append(as, fmt.Sprintf("<id/name of #%d>", lz))
+		} else {
+			as = append(as, fmt.Sprintf("%v", v.Interface()))
+		}
 	}
 	op.desc = fmt.Sprintf("%s#%d(%s).%s(%s)", rc.label, ri, rc.v.Type().String(), m.Name, strings.Join(as, ","))
 	return op
@@ -301,7 +372,22 @@ func (t *opTable) run(op roOp) (res string) {
 		return fmt.Sprintf("%v|%s|%s", pct, strings.Join(ls, ","), errSig(err))
 	}
 	rc := &t.recvs[op.recv]
-	outs := rc.v.Method(op.method).Call(op.args)
+	args := op.args
+	if op.lazy != nil {
+		args = append([]reflect.Value(nil), op.args...)
+		for i, lz := range op.lazy {
+			if lz < 0 {
+				continue
+			}
+			x := t.recvs[lz].v.Interface()
+			if args[i].Type() == entityIDType {
+				args[i] = reflect.ValueOf(x.(entityLike).EntityID())
+			} else {
+				args[i] = reflect.ValueOf(x.(interface{ Name() string }).Name()).Convert(args[i].Type())
+			}
+		}
+	}
+	outs := rc.v.Method(op.method).Call(args)
 	name := op.class
 	if name == "String" && len(outs) == 1 && outs[0].Kind() == reflect.String {
 		// attribute references are listed in map order (String is not an export): compare the
